@@ -54,11 +54,19 @@ def gen_cases(tier, seed):
         T, tcls = bases.rand_transform(rng, ntot, "none" if i % 3 else None)
         norb = ntot if T is None else len(T)
         dm, dcls = bases.rand_sym(rng, norb, ["psd", "indef", "psd-lowrank", "indef", "diag", "psd", "diag-indef", "idempotent", "blockdiag", "diag-indef"][i % 10] if i % 17 else "zero")
+        if i % 5 == 3 and dcls in ("dm:indef", "dm:diag-indef", "dm:blockdiag"):
+            # a density matrix of tiny norm (a difference of two nearly equal densities): its negative values lie below the
+            # DEFAULT threshold 1e-8 in magnitude, so an explicit threshold of 0 (or of |v|/2) must still raise
+            f_ = 10.0 ** -float(rng.uniform(8.3, 12.0))
+            dm = [[v_ * f_ for v_ in row] for row in dm]
+            dcls_extra = ["dm:tiny-norm"]
+        else:
+            dcls_extra = []
         alpha = [0, 1, -1, 0.5, float(rng.normal()), 2][i % 6]
         orders = [list(pool[2 * i]), list(pool[2 * i + 1])]
         cases.append({"shells": shells, "points": pts, "dm": dm, "transform": T, "alpha": alpha, "orders": orders,
                       "deriv_type": "direct" if i % 2 else "general",
-                      "classes": classes + pcls + [tcls, dcls, "alpha:%s" % ("special" if alpha in (0, 1, 0.5) else "generic"),
+                      "classes": classes + pcls + dcls_extra + [tcls, dcls, "alpha:%s" % ("special" if alpha in (0, 1, 0.5) else "generic"),
                                                    "backend:" + ("direct" if i % 2 else "general")] + ["o:%d%d%d" % tuple(o) for o in orders],
                       "cost": len(pts) * norb * norb * (1 + sum(max(o) for o in orders)) ** 2})
     for i in range(2 if tier == "quick" else 8):
